@@ -249,8 +249,26 @@ imp:n 1.0 $ vol=2
 """
 
 
+# seeded C07b: a cell whose last parameter is not a modifier; a modifier that starts printing is written behind it
+CORPUS_TEXT4 = """trailing plain parameters
+1 1 -2.5 -1 2 -3 imp:n=1 tmp=2.5e-8
+2 0 (1:-2:3) -4 imp:n=1 u=5 tmp=3.1-8 $ warm side
+3 0 4 imp:n=0
+
+1 so 1
+2 so 2
+3 so 3
+4 so 4
+
+m1 1001.80c 1.0
+"""
+
+
 def gen_cases(chk):
     cases = []
+    for k in range(6):
+        cases.append({"name": f"corpus-trailing-plain-parameter-{k}", "limit": 128, "text": CORPUS_TEXT4, "seed": 7300 + k, "nedits": 1,
+                      "kinds": ["volume"]})
     for k in range(4):
         cases.append({"name": f"corpus-shortcut-comment-{k}", "limit": 128, "text": CORPUS_TEXT3, "seed": 7200 + k, "nedits": 1,
                       "kinds": ["importance"]})
